@@ -30,7 +30,44 @@ REPO = os.environ.get('VERIF_REPO', '/repo')
 COQ = os.path.join(VERIF, 'coq')
 WORK = os.path.join(VERIF, '.work')
 KNOWN = os.path.join(VERIF, 'known_findings.txt')
-NCPU = int(os.environ.get('VERIF_JOBS', '16'))
+def _mem_limited_jobs(want, per_job_kb=2600000):
+    """Parallelism bounded by the memory that is really available (MemAvailable and the cgroup limit):
+    a coqc of this development peaks between 0.3 and 2.5 GB, and an out-of-memory kill of one of sixteen
+    parallel compilations must not be mistaken for a broken proof."""
+    avail = None
+    try:
+        for ln in open('/proc/meminfo'):
+            if ln.startswith('MemAvailable:'):
+                avail = int(ln.split()[1])
+    except OSError:
+        pass
+    for f in ('/sys/fs/cgroup/memory.max', '/sys/fs/cgroup/memory/memory.limit_in_bytes'):
+        try:
+            v = open(f).read().strip()
+            if v.isdigit():
+                lim = int(v) // 1024
+                used = 0
+                for g in ('/sys/fs/cgroup/memory.current', '/sys/fs/cgroup/memory/memory.usage_in_bytes'):
+                    try:
+                        used = int(open(g).read().strip()) // 1024
+                        break
+                    except (OSError, ValueError):
+                        pass
+                left = max(0, lim - used)
+                avail = left if avail is None else min(avail, left)
+        except OSError:
+            pass
+    try:
+        ncpu = os.cpu_count() or want
+    except Exception:
+        ncpu = want
+    n = min(want, ncpu)
+    if avail is not None:
+        n = min(n, max(1, avail // per_job_kb))
+    return max(1, n)
+
+
+NCPU = _mem_limited_jobs(int(os.environ.get('VERIF_JOBS', '16')))
 
 FORBIDDEN = re.compile(
     r'\bAdmitted\b|\badmit\b|\bAxiom\b|\bParameter\b|\bConjecture\b|Unset Guard|'
@@ -281,8 +318,14 @@ class Ctx:
         def one(path):
             return sh('ulimit -s unlimited 2>/dev/null; coqc -Q %s DS -Q %s Cases %s'
                       % (COQ, d, path), timeout=timeout, cwd=d)
-        with ThreadPoolExecutor(max_workers=NCPU) as ex:
+        with ThreadPoolExecutor(max_workers=min(NCPU, _mem_limited_jobs(NCPU, 1500000))) as ex:
             results = list(ex.map(one, files))
+        # a shard whose coqc was killed for lack of memory (or by the OOM killer) says nothing about the
+        # model: evaluate those shards again, one at a time
+        for k, (rc, out) in enumerate(results):
+            if rc != 0 and (rc in (134, 137, -9, -6) or re.search(
+                    r'out of memory|Out of memory|Cannot allocate memory|Killed', out)):
+                results[k] = one(files[k])
         mism = []
         errors = []
         for k, (rc, out) in enumerate(results):
@@ -438,7 +481,18 @@ def coq_make(targets, timeout=1500, jobs=NCPU):
     with open(os.path.join(WORK, 'coq.lock'), 'w') as lock:
         fcntl.flock(lock, fcntl.LOCK_EX)
         coq_project()
-        return sh('make -j%d %s' % (jobs, ' '.join(targets)), timeout=timeout, cwd=COQ)
+        jobs = min(jobs, _mem_limited_jobs(jobs))
+        rc, out = sh('make -j%d %s' % (jobs, ' '.join(targets)), timeout=timeout, cwd=COQ)
+        # an out-of-memory abort of a compilation is a property of the machine, not of a proof: rebuild what
+        # is missing with less parallelism before anyone draws a conclusion from the failure
+        tries = 0
+        while rc != 0 and jobs > 1 and tries < 3 and re.search(
+                r'out of memory|Out of memory|Cannot allocate memory|Error 134|Error 137|Killed|Stack overflow', out):
+            jobs = max(1, jobs // 4)
+            tries += 1
+            rc, out2 = sh('make -j%d %s' % (jobs, ' '.join(targets)), timeout=timeout, cwd=COQ)
+            out = out + '\n[retry with -j%d after an out-of-memory abort]\n' % jobs + out2
+        return rc, out
 
 
 def cone_of(vfile):
